@@ -443,7 +443,8 @@ func fmtVals(vs []reflect.Value) string {
 
 const c17Rule = "static grammars for every numeric kind (int8..int64, int, uint8..uint64, uint, float32, float64, named types) in six " +
 	"shapes (scalar, pointer, slice, multi-token @(Sign? Tok) into a value and into a pointer, before a nested production inside an optional group, inside an alternative that can accept the text another way, after other " +
-	"tokens) x texts (boundary values +-1 of every width in base 10/16/8/2, signs, prefixes, underscores, exponents, hex floats, Inf/NaN " +
+	"tokens, a number in up to four tokens with an optional tail @(Sign? Tok (Sign Tok)?), quoted texts unquoted by Unquote incl. the empty text, " +
+	"one case in forty also converted by 2-8 goroutines at once) x texts (boundary values +-1 of every width in base 10/16/8/2, signs, prefixes, underscores, exponents, hex floats, Inf/NaN " +
 	"spellings, junk); oracle: strconv.ParseInt/ParseUint/ParseFloat with the field's bit size and base 0 -- success => the field holds " +
 	"exactly that value, failure => Parse fails with an error positioned at the first captured token that mentions the conversion (or the " +
 	"enclosing alternative captures the text as a string and the numeric node is absent); non-trivial = the text is within +-1 of a width " +
